@@ -36,13 +36,56 @@ func init() {
 // ---------------------------------------------------------------------------------------------
 // constructors: component sequence of the byte slice returned
 
+// kcBind binds the parameters of key-building helpers that keyComponents has entered to the arguments of the
+// call it came through (constructDataKey → assembleDataKey(i, tk, v, c, marker)).
+var kcBind = map[*ssa.Parameter]ssa.Value{}
+
+func kcResolve(v ssa.Value) ssa.Value {
+	for i := 0; i < 8; i++ {
+		v = stripConv(v)
+		p, ok := v.(*ssa.Parameter)
+		if !ok {
+			return v
+		}
+		b, ok := kcBind[p]
+		if !ok {
+			return v
+		}
+		v = b
+	}
+	return v
+}
+
 // components resolves an append chain into component names.
 func keyComponents(v ssa.Value, f *ssa.Function, depth int) []string {
 	if depth > 12 {
 		return []string{"?"}
 	}
-	v = stripConv(v)
+	v = kcResolve(v)
 	switch x := v.(type) {
+	case *ssa.Extract:
+		// component of a helper's (Key, error) result
+		if c, ok := x.Tuple.(*ssa.Call); ok {
+			if callee := c.Call.StaticCallee(); callee != nil && inRepo(callee) {
+				if len(callee.Params) == len(c.Call.Args) {
+					for i, p := range callee.Params {
+						kcBind[p] = kcResolve(c.Call.Args[i])
+					}
+				}
+				for _, b := range callee.Blocks {
+					if ret, ok := b.Instrs[len(b.Instrs)-1].(*ssa.Return); ok && len(ret.Results) > x.Index {
+						return keyComponents(ret.Results[x.Index], callee, depth+1)
+					}
+				}
+			}
+		}
+		return []string{"?"}
+	case *ssa.MakeSlice:
+		// make([]byte, 0, n): an empty head of an append chain
+		if k, ok := constInt(x.Len); ok && k == 0 {
+			return nil
+		}
+		return []string{"?"}
 	case *ssa.Call:
 		if bi, ok := x.Call.Value.(*ssa.Builtin); ok && bi.Name() == "append" {
 			head := keyComponents(x.Call.Args[0], f, depth+1)
@@ -55,7 +98,7 @@ func keyComponents(v ssa.Value, f *ssa.Function, depth int) []string {
 			n := namedOf(t)
 			if n != nil {
 				extra := ""
-				if k, ok := constInt(stripConv(x.Call.Args[0])); ok {
+				if k, ok := constInt(kcResolve(x.Call.Args[0])); ok {
 					extra = fmt.Sprintf("=%d", uint32(k))
 				} else if l := lin(x.Call.Args[0], 0); l.ok && l.c != 0 && len(l.terms) == 1 {
 					extra = fmt.Sprintf("%+d", l.c)
@@ -64,7 +107,12 @@ func keyComponents(v ssa.Value, f *ssa.Function, depth int) []string {
 			}
 		}
 		if callee != nil && inRepo(callee) {
-			// helper returning a key: inline
+			// helper returning a key: inline, with its parameters bound to the arguments
+			if len(callee.Params) == len(x.Call.Args) {
+				for i, p := range callee.Params {
+					kcBind[p] = kcResolve(x.Call.Args[i])
+				}
+			}
 			for _, b := range callee.Blocks {
 				if ret, ok := b.Instrs[len(b.Instrs)-1].(*ssa.Return); ok && len(ret.Results) > 0 {
 					return keyComponents(ret.Results[0], callee, depth+1)
@@ -82,7 +130,7 @@ func keyComponents(v ssa.Value, f *ssa.Function, depth int) []string {
 					i, _ := constInt(ia.Index)
 					for _, r2 := range *ia.Referrers() {
 						if st, ok := r2.(*ssa.Store); ok {
-							if k, ok := constInt(st.Val); ok {
+							if k, ok := constInt(kcResolve(st.Val)); ok {
 								vals[int(i)] = fmt.Sprintf("byte=%#x", k)
 							} else {
 								vals[int(i)] = "byte(" + typeShort(st.Val.Type()) + ")"
@@ -112,7 +160,9 @@ func keyComponents(v ssa.Value, f *ssa.Function, depth int) []string {
 	return []string{"?"}
 }
 
-func typeShort(t types.Type) string { return types.TypeString(t, func(*types.Package) string { return "" }) }
+func typeShort(t types.Type) string {
+	return types.TypeString(t, func(*types.Package) string { return "" })
+}
 
 func paramKind(t types.Type) string {
 	if typeIs(t, "storage", "TKey") {
